@@ -147,6 +147,10 @@ type Run struct {
 	// C19: schema constants that changed after a machine was created from them
 	SchemaMutated []string
 	SchemaUseRan  bool
+	// C01 bounded clock stand-in
+	CFailing []string
+	CTotal   int
+	CRan     bool
 	// C06 bounded waiting stand-in
 	WFailing []string
 	WTotal   int
@@ -294,6 +298,18 @@ func verifyRun(opts *RunOpts) (*Run, error) {
 			run.ExtraNotes = append(run.ExtraNotes, "bounded negotiation stand-in did not run: "+err.Error())
 		} else {
 			run.NegFailing, run.NegTotal, run.NegRan = f, total, true
+		}
+	}
+	if opts.Prop == "C01" {
+		k := 3
+		if opts.Tier == "thorough" {
+			k = 4
+		}
+		f, total, err := runBoundedClock(opts, k)
+		if err != nil {
+			run.ExtraNotes = append(run.ExtraNotes, "bounded clock stand-in did not run: "+err.Error())
+		} else {
+			run.CFailing, run.CTotal, run.CRan = f, total, true
 		}
 	}
 	if opts.Prop == "C06" {
